@@ -19,7 +19,11 @@ Definition join_body (x p : value) : fres :=
   else
     do sep <- str_of p;
     match sep with
-    | [] => do s <- str_of x; okv (VStr s)
+    | [] =>
+        match vv x with
+        | VStr s => okv (VStr s)
+        | _ => do parts <- list_strings (vv x); okv (VStr (join_go [] parts))
+        end
     | _ => do parts <- list_strings (vv x); okv (VStr (join_go sep parts))
     end.
 
@@ -323,14 +327,30 @@ Proof.
   cbn [fold_right]. rewrite IH. cbn [bind]. rewrite Hv. reflexivity.
 Qed.
 
-(* join: the texts of the items with the separator between them *)
+(* join: the texts of the items with the separator between them; any separator, the empty
+   one included (fix D46: then the result is the concatenation of the texts) *)
 Lemma join_list : forall (x p : value) (l : list val) (strs : list str) (sep : str),
-  vv x = VList l -> to_string (vv p) = Some sep -> sep <> [] -> rendered l strs ->
+  vv x = VList l -> to_string (vv p) = Some sep -> rendered l strs ->
   join_body x p = Ok (as_value (VStr (py_join sep strs))).
 Proof.
-  intros x p l strs sep Hx Hp Hne Hr. unfold join_body. rewrite Hx. cbn [can_slice negb].
-  rewrite (str_of_some p sep Hp). cbn [bind]. destruct sep as [|c sep]; [contradiction|].
-  rewrite (list_strings_rendered l strs Hr). cbn [bind]. rewrite join_go_is_py_join. reflexivity.
+  intros x p l strs sep Hx Hp Hr. unfold join_body. rewrite Hx. cbn [can_slice negb].
+  rewrite (str_of_some p sep Hp). cbn [bind]. destruct sep as [|c sep];
+    rewrite (list_strings_rendered l strs Hr); cbn [bind]; rewrite join_go_is_py_join; reflexivity.
+Qed.
+
+(* with the empty separator the joined text is the concatenation of the items' texts *)
+Lemma py_join_nil_concat : forall strs, py_join [] strs = concat strs.
+Proof.
+  induction strs as [|s strs IH]; [reflexivity|].
+  rewrite py_join_cons. cbn [concat]. rewrite <- IH. destruct strs as [|t strs]; [|reflexivity].
+  cbn [py_join]. reflexivity.
+Qed.
+
+Lemma join_list_nosep : forall (x p : value) (l : list val) (strs : list str),
+  vv x = VList l -> to_string (vv p) = Some [] -> rendered l strs ->
+  join_body x p = Ok (as_value (VStr (concat strs))).
+Proof.
+  intros x p l strs Hx Hp Hr. rewrite (join_list x p l strs [] Hx Hp Hr), py_join_nil_concat. reflexivity.
 Qed.
 
 (* ... on a string: its characters; with the empty separator the string itself *)
@@ -347,8 +367,7 @@ Lemma join_string_nosep : forall (x p : value) (s : str),
   vv x = VStr s -> to_string (vv p) = Some [] -> join_body x p = Ok (as_value (VStr s)).
 Proof.
   intros x p s Hx Hp. unfold join_body. rewrite Hx. cbn [can_slice negb].
-  rewrite (str_of_some p [] Hp). cbn [bind].
-  rewrite (str_of_some x s) by (rewrite Hx; reflexivity). reflexivity.
+  rewrite (str_of_some p [] Hp). cbn [bind]. reflexivity.
 Qed.
 
 (* ... anything that is neither a list nor a string is returned as it is *)
@@ -379,7 +398,7 @@ Proof.
   intros x p s sep Hx Hp Hne.
   destruct (split_python x p s sep Hx Hp Hne) as [parts [Hs [_ Hj]]].
   exists (as_value (VList (map VStr parts))). split; [exact Hs|].
-  rewrite (join_list (as_value (VList (map VStr parts))) p (map VStr parts) parts sep eq_refl Hp Hne (rendered_strs parts)).
+  rewrite (join_list (as_value (VList (map VStr parts))) p (map VStr parts) parts sep eq_refl Hp (rendered_strs parts)).
   rewrite Hj. reflexivity.
 Qed.
 
